@@ -145,7 +145,7 @@ func cmdC06Scope(args []string) int {
 					st.violate(violation{Kind: "put-outside-get-scope",
 						Detail: map[string]any{"function": fname, "file": filepath.Base(f), "variable": p.varName, "line": fset.Position(p.pos).Line,
 							"may_alias_parameter": aliasOfParam[p.varName],
-							"explanation": "putSearchState(" + p.varName + ") is not inside the block of a `" + p.varName + " = getSearchState()`: the state may belong to the caller"},
+							"explanation":         "putSearchState(" + p.varName + ") is not inside the block of a `" + p.varName + " = getSearchState()`: the state may belong to the caller"},
 						Sig: "put-outside-get-scope " + fname + " " + p.varName, RC: "state-released-outside-acquiring-scope"})
 				}
 			}
